@@ -115,6 +115,16 @@ class SchemaValidationError(Fault):
         super(SchemaValidationError, self).__init__(self.CODE, faultstring)
 
 
+def _reject_entity_references(root):
+    """With resolve_entities=False lxml leaves _Entity nodes in the tree. Their
+    ``tag`` is a function, XMLSchema.validate() chokes on them and no
+    deserializer knows them."""
+
+    for _ in root.iter(etree.Entity):
+        raise Fault('Client.XMLSyntaxError',
+                                         'Entity references are not supported.')
+
+
 class SubXmlBase(ProtocolBase):
     def subserialize(self, ctx, cls, inst, parent, ns=None, name=None):
         return self.to_parent(ctx, cls, inst, parent, name)
@@ -454,6 +464,8 @@ class XmlDocument(SubXmlBase):
         except XMLSyntaxError as e:
             logger_invalid.error("%r in string %r", e, string)
             raise Fault('Client.XMLSyntaxError', str(e))
+
+        _reject_entity_references(ctx.in_document)
 
     def decompose_incoming_envelope(self, ctx, message):
         assert message in (self.REQUEST, self.RESPONSE)
